@@ -511,3 +511,23 @@ def simplify_op(op):
 
 
 _ = copy_map = None
+
+
+def sweep(cfg, res, rng, tier):
+    """Entry/method enumeration on a sampled history: the phase-1 history is
+    re-executed and a snapshot taken from *every* node by *every* method."""
+    ops = res.ops
+    cut = None
+    for i, o in enumerate(ops):
+        if o["op"] == "snapshot":
+            cut = i
+            break
+    if cut is None:
+        return
+    n = len(cfg["classes"]) + sum(1 for o in ops[:cut] if o["op"] == "new")
+    limit = 8 if tier == "thorough" else 5
+    if n > limit or rng.random() > (0.5 if tier == "thorough" else 0.15):
+        return
+    for entry in range(n):
+        for method in cfg["methods"]:
+            yield cfg, ops[:cut] + [{"op": "snapshot", "n": entry, "method": method}]
